@@ -160,6 +160,8 @@ func run(c *mon.Ctx) {
 	for k := 0; k < chunks; k++ {
 		spawn(fmt.Sprintf("sock%d", k), "sock", mon.Self(), nil, strconv.Itoa(nSess), strconv.Itoa(k), strconv.Itoa(chunks))
 	}
+	// slow multi-page responses: a process of its own (a quiet garbage collector), mostly asleep
+	spawn("slow0", "slow", mon.Self(), nil, "0", "0", "1")
 	raceBin := mon.RaceSelf()
 	raceLog := filepath.Join(dir, "racelog")
 	if _, err := os.Stat(raceBin); err == nil {
@@ -212,6 +214,15 @@ func run(c *mon.Ctx) {
 			c.Set("first_race_report", first)
 		}
 	}
+	if c.Counter("slow_pages_requests_judged") == 0 {
+		c.Inconclusive("slow-pages-never-judged")
+	}
+	if c.Counter("reuse_after_done_histories") == 0 {
+		c.Inconclusive("reuse-after-done-never-run")
+	}
+	if c.Counter("fatal_ending_sessions") == 0 {
+		c.Inconclusive("fatal-ending-never-run")
+	}
 	if c.Counter("undrained_sessions_channel_found_full") == 0 {
 		c.Inconclusive("undrained-event-channel-never-full")
 	}
@@ -246,6 +257,12 @@ func runWorker(c *mon.Ctx) {
 			out = append(out, i)
 		}
 		return out
+	}
+	if name == "slow" {
+		perturbLogs(c.Seed)
+		idx := mine(c.Pick(6, 36))
+		mon.ParallelN(len(idx), len(idx), func(i int) { runSlowPages(c, idx[i]) })
+		return
 	}
 	h := perturbLogs(c.Seed)
 	debug.SetGCPercent(400) // memory is plentiful; long GC cycles on a busy box stall every allocating goroutine
@@ -284,6 +301,17 @@ func runWorker(c *mon.Ctx) {
 		cfg.Race = race
 		runSession(c, cfg)
 	})
+	// reuse of a caller-chosen id after its request was closed by an overflow (scripted, shim and sockets)
+	reuse := mine(c.Pick(240, 12000))
+	if race {
+		reuse = mine(c.Pick(24, 240))
+	}
+	mon.ParallelN(par, len(reuse), func(i int) { runReuseAfterDone(c, base+reuse[i]) })
+	fat := mine(c.Pick(72, 2400))
+	if race {
+		fat = mine(c.Pick(12, 120))
+	}
+	mon.ParallelN(par, len(fat), func(i int) { runFatalEnding(c, base+fat[i]) })
 	c.Count("perturb_log_events", int64(h.n.Load()))
 	c.Count("perturb_sleeps", h.sleeps.Load())
 	c.Count("perturb_yields", h.yields.Load())
@@ -316,6 +344,16 @@ func replay(c *mon.Ctx) {
 		c.Seed = d.Seed
 	}
 	switch {
+	case d.Workload == "slow-pages":
+		perturbLogs(c.Seed)
+		runSlowPages(c, d.Index)
+	case d.Workload == "reuse-after-done":
+		runReuseAfterDone(c, d.Index)
+	case d.Workload == "fatal-ending":
+		perturbLogs(c.Seed)
+		for i := 0; i < 5 && c.ViolationCount() == 0; i++ {
+			runFatalEnding(c, d.Index)
+		}
 	case d.Workload == "sock":
 		perturbLogs(c.Seed)
 		for i := 0; i < 20 && c.ViolationCount() == 0; i++ { // scheduling is not replayable: a few attempts
